@@ -196,11 +196,65 @@ class Taint:
         return any(isinstance(x, (ast.For, ast.While)) for x in ast.walk(self.fn))
 
 
+def r13_10(prog: Program, rep):
+    """independent(): a commit is never compared with ITSELF.  The pairwise loop skips equal positions only, so the ids are
+    de-duplicated first (dict.fromkeys / set / an id comparison that skips) - the merge base of (A, A) is A and both copies
+    of a commit listed twice would be dropped as 'ancestor of another'."""
+    m = prog.module("dulwich/graph.py")
+    f = m.funcs.get("independent")
+    if f is None:
+        raise AnalysisError("graph.independent not found")
+    ps = [a.arg for a in f.node.args.args]
+    ids = ps[1] if len(ps) > 1 else None
+    loops = [l for l in ast.walk(f.node) if isinstance(l, (ast.For, ast.comprehension))]
+    pair = [c for c in ast.walk(f.node) if isinstance(c, ast.Call) and callee_name(c) == "find_merge_base"]
+    if not ids or len(loops) < 2 or not pair:
+        raise AnalysisError("independent: the pairwise comparison (two nested iterations around find_merge_base) not found")
+    first_line = min(getattr(l, "lineno", None) or getattr(l.iter, "lineno", 10 ** 9) for l in loops)
+    dedup = [s_ for s_ in ast.walk(f.node) if isinstance(s_, ast.Assign) and s_.lineno < first_line and any(
+        isinstance(c, ast.Call) and (dotted(c.func) in ("dict.fromkeys",) or callee_name(c) in ("set", "frozenset", "OrderedDict", "unique"))
+        and any(isinstance(x, ast.Name) and x.id == ids for x in ast.walk(c)) for c in ast.walk(s_.value))]
+    skips = [t for l in loops if isinstance(l, ast.For) for t in ast.walk(l) if isinstance(t, ast.If) and isinstance(t.test, ast.Compare) and isinstance(t.test.ops[0], ast.Eq)
+             and "_id" in norm(t.test.left) and "_id" in norm(t.test.comparators[0]) and any(isinstance(x, ast.Continue) for x in t.body)]
+    skips += [c for l in loops if isinstance(l, ast.comprehension) for c in l.ifs if isinstance(c, ast.Compare) and isinstance(c.ops[0], ast.NotEq)
+              and "_id" in norm(c.left) and "_id" in norm(c.comparators[0])]
+    rep.ob("R13.10", m.rel, f.qual, "the ids are de-duplicated (or equal ids skipped) before commits are compared pairwise", bool(dedup or skips),
+           "positions are skipped, not ids: for a commit listed twice the merge base of (A, A) is A, so both copies count as ancestors of another commit and "
+           "independent([A, A]) is [] instead of [A]", pair[0].lineno)
+
+
+def r13_11(prog: Program, rep):
+    """The shallow boundary is held in two places - the `shallow` file and the parentless graft points loaded from it when the
+    repository was opened.  update_shallow keeps them together: the branch that removes commits from the shallow set also
+    removes their graft points, otherwise walks in the same Repo object still stop at the old boundary."""
+    m = prog.module("dulwich/repo.py")
+    f = m.funcs.get("BaseRepo.update_shallow")
+    if f is None:
+        raise AnalysisError("BaseRepo.update_shallow not found")
+    loads = [fn for q, fn in m.funcs.items() if any(isinstance(c, ast.Call) and callee_name(c) == "parse_graftpoints" for c in ast.walk(fn.node))
+             and "shallow" in norm(fn.node, 200000)]
+    if not loads:
+        rep.note("the shallow file is no longer loaded as graft points: R13.11 has nothing to keep together")
+        return
+    un = [t for t in ast.walk(f.node) if isinstance(t, ast.If) and "unshallow" in norm(t.test)]
+    if not un:
+        raise AnalysisError("update_shallow: the branch handling new_unshallow not found")
+    removes = [x for t in un for x in ast.walk(t) if (isinstance(x, ast.Delete) and "_graftpoints" in norm(x)) or
+               (isinstance(x, ast.Call) and isinstance(x.func, ast.Attribute) and x.func.attr in ("pop", "clear", "_remove_graftpoints") and "graftpoints" in norm(x))]
+    rep.ob("R13.11", m.rel, f.qual, "commits that stop being shallow lose their parentless graft point in the live repository object", bool(removes),
+           "the shallow file is rewritten but the graft points loaded from it at open time stay: the ParentsProvider keeps answering 'no parents' for the old "
+           "boundary and a walk in the same Repo object yields a truncated history (a reopened one does not)", un[0].lineno)
+
+
 def run(prog: Program, rep, tier="quick"):
     rep.rule("R13.1", "TAINT with implicit flows, graph.py: no termination/skip in a traversal is control dependent on a "
                       "timestamp-tainted test")
     rep.rule("R13.2", "walk.py: timestamp-tainted terminations only under an exempt option test (since/until/exclusion); "
                       "_topo_reorder reads no timestamp")
+    rep.rule("R13.10", "independent() never compares a commit with itself (duplicates removed first)")
+    rep.rule("R13.11", "update_shallow keeps the shallow file and the graft points loaded from it together")
+    r13_10(prog, rep)
+    r13_11(prog, rep)
     rep.rule("R13.9", "exclusion propagation in the walker is complete: every parent of an excluded commit is excluded")
     rep.rule("R13.8", "MONOTONE FLAGS: every store to the flag map of _find_lcas accumulates (`old | new`) unless it is the first store")
     rep.rule("R13.6", "walk.py has one source of ancestry: the walker's get_parents (no direct .parents, helpers get the caller's function)")
